@@ -387,6 +387,12 @@ func Leaves(v ssa.Value, o leafOpts) []ssa.Value {
 						}
 						return
 					}
+				case *ssa.FieldAddr:
+					// single-store field of a struct built in this function (possibly copied by value)
+					if sv := uniqueFieldStore(a, x); sv != nil {
+						walk(sv)
+						return
+					}
 				case *ssa.FreeVar:
 					if b := freeVarBinding(a); b != nil {
 						if al, ok := b.(*ssa.Alloc); ok {
@@ -862,7 +868,7 @@ func uniqueFieldStore(fa *ssa.FieldAddr, load *ssa.UnOp) ssa.Value {
 	if !ok || al.Parent() != load.Parent() {
 		return nil
 	}
-	return fieldValueOf(al, fa.Field, load, 3)
+	return fieldValueOf(al, fa.Field, load, 7)
 }
 
 func dominatesInstr(a, b ssa.Instruction) bool {
